@@ -365,8 +365,15 @@ def builderFromText (text : Str) : Except TextErr Builder :=
       | _ => addLines Builder.emptyText rest
     | .absent => addLines Builder.emptyText (first :: rest)
 
+/-- decimal digits, most significant first (`fuel` bounds the number of digits) -/
+def natToDecAux : Nat → Nat → Str → Str
+  | 0, _, acc => acc
+  | f + 1, n, acc =>
+    let acc' := UInt8.ofNat (48 + n % 10) :: acc
+    if n / 10 = 0 then acc' else natToDecAux f (n / 10) acc'
+
 /-- decimal `%d` -/
-def natToDec (n : Nat) : Str := (Nat.repr n).toUTF8.toList
+def natToDec (n : Nat) : Str := natToDecAux (n + 1) n []
 
 def ruleLines (pre : Str) (rs : List Str) : Str := rs.flatMap (fun r => pre ++ r ++ [LF])
 
